@@ -19,7 +19,7 @@ fn gen_tpl(rng: &mut Rng, tag: &str) -> Vec<Piece> {
     if rng.chance(1, 2) { ps.push(Piece::Lit(tag.to_string())); }
     let n = 1 + rng.below(2);
     for i in 0..n {
-        if i > 0 { ps.push(Piece::Lit(",".into())); }
+        if i > 0 { ps.push(Piece::Lit(if rng.chance(1, 6) { "#".into() } else { ",".into() })); } // '#' inside a template is text, not a comment
         ps.push(Piece::Idx(rng.below(4) as usize, rng.chance(1, 3)));
     }
     if rng.chance(1, 6) { ps.push(Piece::Lit("%x".into())); } // a '%' that is not a reference
